@@ -129,6 +129,15 @@ Mutators(s) ==
   {<<"AS", a, 0, 0>> : a \in Accounts} \cup
   {<<"TS", a, v, 0>> : a \in Accounts, v \in {0, 1}}
 
+(* a state-independent superset of Mutators(s) within the depth bound (TLC then reports the *)
+(* coverage of DoMut by name)                                                              *)
+Amounts == 1..(10 + 3 * MaxDepth)
+CallUniverse ==
+  Mutators(Start(1)) \cup
+  {<<"SB", a, x, 0>> : a \in Accounts, x \in Amounts} \cup
+  {<<"TR", a, x, b>> : a \in Accounts, b \in Accounts, x \in Amounts} \cup
+  {<<"SF", a, x, 0>> : a \in Accounts, x \in Amounts}
+
 (* SubRefund panics below zero: never called that way *)
 Callable(s, c) == /\ c[1] = "SR" => s.refund >= c[3]
                   /\ c[1] = "TR" => c[2] # c[4]
@@ -151,7 +160,7 @@ Init == /\ start \in {1, 2, 3}
 Bound == Len(hist) < MaxDepth
 
 DoMut(c) ==
-  /\ Bound /\ Callable(st, c)
+  /\ Bound /\ c \in Mutators(st) /\ Callable(st, c)
   /\ st' = Mut(st, c)
   /\ hist' = Append(hist, c) /\ surv' = Append(surv, c)
   /\ UNCHANGED <<snaps, nextId, start>>
@@ -186,7 +195,7 @@ Prepare(t) ==
   /\ UNCHANGED <<snaps, nextId, start>>
 
 Next ==
-  \/ \E c \in Mutators(st) : DoMut(c)
+  \/ \E c \in CallUniverse : DoMut(c)
   \/ Snapshot
   \/ \E i \in 1..MaxDepth : Revert(i)      \* (guarded by i <= Len(snaps))
   \/ Finalise
